@@ -1,2 +1,203 @@
-(** C17 — statements (being written). *)
-From Verif Require Import Lib.Base Lib.PyStr Copyright.Fields Copyright.Doc Copyright.DocSpec.
+(** C17 — Copyright documents and license texts survive dump and re-parse.
+    Only statements; every proof is [exact <lemma>].
+
+    Model: Copyright/Fields.v (codecs, RestrictedWrapper property machinery) and
+    Copyright/Doc.v (Header, FilesParagraph, LicenseParagraph, Copyright.__init__/dump)
+    over Deb822/Model.v — the functions [agree] of Copyright/DocCheck.v runs.
+    Spec: Copyright/DocSpec.v — the domains [ml_dom], [text_dom], [lic_dom], [ss_dom],
+    [lb_dom], [wf_copyright] and the expected values that [holds] uses.
+    Proofs: Copyright/FieldsProofs.v, DocProofs.v, DocRoundtrip.v (composition with C02's
+    theorems of Deb822/Proofs.v).
+
+    All domain hypotheses are boolean.  "Line-boundary character" = any character
+    str.splitlines() splits at (LF CR VT FF FS GS RS NEL LS PS, table Gen/PyChars.v). *)
+From Coq Require Import String.
+From Verif Require Import Lib.Base Lib.Dec Lib.PyStr Gen.PyChars Deb822.Spec
+  Copyright.Fields Copyright.Doc Copyright.DocSpec Copyright.DocBridge
+  Copyright.FieldsProofs Copyright.DocProofs Copyright.DocRoundtrip.
+From Verif Require Deb822.Model.
+
+(** 1. multiline_codec_inverse.  For every line list in [ml_dom] — no line contains a
+       line-boundary character; every line after the first is neither whitespace-only
+       (and non-empty) nor a lone '.'; the list is not [""] —
+       parse_multiline_as_lines (format_multiline_lines ls) = ls.
+       Empty lines, indentation, trailing blanks, any other characters are carried. *)
+Theorem C17_multiline_codec_inverse :
+  forall ls, ml_dom ls = true -> parse_multiline_as_lines (format_multiline_lines ls) = Ok ls.
+Proof. exact multiline_codec_inverse. Qed.
+
+(** the one edge of the lines API: [""] encodes to the empty string, which has no line *)
+Theorem C17_multiline_codec_edge :
+  parse_multiline_as_lines (format_multiline_lines [[]]) = Ok [].
+Proof. exact multiline_codec_edge. Qed.
+
+(** the text API: parse_multiline (format_multiline t) = t for every text that does not end
+    in LF and whose LF-separated lines are in [ml_dom]; None goes to None *)
+Theorem C17_multiline_text_inverse :
+  forall t, text_dom t = true -> parse_multiline (format_multiline (Some t)) = Ok (Some t).
+Proof. exact multiline_text_inverse. Qed.
+
+Theorem C17_multiline_none : parse_multiline (format_multiline None) = Ok None.
+Proof. exact multiline_none. Qed.
+
+(** 2. license_inverse.  For a synopsis without line-boundary characters and a text that
+       does not end in LF and none of whose lines is whitespace-only-nonempty, a lone '.' or
+       contains a line-boundary character: License(synopsis, text) is accepted and
+       License.from_str(l.to_str()) = l.  (No exception for empty synopsis or empty text.) *)
+Theorem C17_license_inverse :
+  forall syn text, lic_dom syn text = true ->
+    mk_license syn (Some text) = Ok (mkLic syn text)
+    /\ lic_from_str (Some (lic_to_str (mkLic syn text))) = Ok (Some (mkLic syn text)).
+Proof. exact license_inverse. Qed.
+
+(** 3. space_separated_inverse.  For every list (possibly empty) of non-empty items free
+       of whitespace: to_str succeeds and from_str gives the list back. *)
+Theorem C17_space_separated_inverse :
+  forall l, ss_dom l = true -> exists o, ss_to_str l = Ok o /\ ss_from_str o = l.
+Proof. exact space_separated_inverse. Qed.
+
+(** 4. line_based_inverse.  For every list (possibly empty) of non-empty one-line items
+       without surrounding whitespace: to_str succeeds (one item on the field's line,
+       several on continuation lines after an empty first line) and from_str gives the
+       list back. *)
+Theorem C17_line_based_inverse :
+  forall l, lb_dom l = true -> exists o, lb_to_str l = Ok o /\ lb_from_str o = l.
+Proof. exact line_based_inverse. Qed.
+
+(** 5. copyright_roundtrip.  Take ANY sequence of header operations (assignments to the
+       ten Header properties, None included where allowed, and header[key] = value for
+       unreserved keys) and ANY sequence of FilesParagraph.create(files, copyright, license)
+       / LicenseParagraph.create(license) (+ optional comment) added with
+       add_files_paragraph / add_license_paragraph, all values in [wf_copyright].  Then
+         - building succeeds, giving a document c1;
+         - Copyright(c1.dump(), strict) — in strict and in lax mode, with the text passed as
+           a str, as a list of lines with or without line ends, or as a file object — reads
+           back exactly c1: the same header and the same sequence of paragraphs with the
+           same fields (hence every property of every paragraph reads the same and the
+           second dump is identical, theorem 6);
+         - the paragraphs are the Files paragraphs in the order they were added followed by
+           the License paragraphs in the order they were added, and their properties
+           (files, copyright, license synopsis and text, comment) read as the values that
+           were put in. *)
+Theorem C17_copyright_roundtrip :
+  forall hops ps form strict,
+    wf_copyright hops ps = true ->
+    exists c1,
+      build_doc (map hop_of_shop hops) (map pspec_of_spara ps) = Ok c1
+      /\ copyright_parse strict (input_of_text form (cdump c1)) = Ok c1
+      /\ map para_view (cd_paras c1) = map expected_view (expected_order ps).
+Proof. exact copyright_roundtrip. Qed.
+
+(** 6. The same in the terms the correspondence check computes ([run_doc], which [agree]
+       compares with the implementation): build, dump, re-read, read every property,
+       dump again — same values [hv :: ...] before and after, identical text [t]. *)
+Theorem C17_copyright_roundtrip_observed :
+  forall hops ps form strict,
+    wf_copyright hops ps = true ->
+    exists t hv,
+      run_doc (map hop_of_shop hops) (map pspec_of_spara ps) form strict
+      = RDone t (hv :: map expected_view (expected_order ps))
+                (hv :: map expected_view (expected_order ps)) t.
+Proof. exact run_doc_identity. Qed.
+
+(** 7. The deb822 layer enters 5 and 6 through one fact only, proved from C02's theorems
+       (Copyright/DocRoundtrip.v): paragraphs that are valid for C02, have trimmed first
+       lines and are non-empty, dumped and separated by one empty line, are read back
+       unchanged by Deb822.iter_paragraphs in each of the four input forms. *)
+Theorem C17_reader_roundtrip :
+  forall form ds,
+    ds <> [] -> forallb good_para ds = true -> forallb nonempty_para ds = true ->
+    Model.iter_paragraphs Model.CDeb822 true (input_of_text form (paras_text ds)) = Ok ds.
+Proof. exact reader_ok. Qed.
+
+(** ... and what every stored value looks like: the encoders produce values C02 calls
+    valid, with a trimmed first line (the lemma "encoders produce valid_para values"). *)
+Theorem C17_license_value_valid :
+  forall syn text, license_ok syn text = true ->
+    valid_value (lic_to_str (mkLic syn (otext text))) = true
+    /\ trimmed (lic_to_str (mkLic syn (otext text))) = true.
+Proof. exact license_value. Qed.
+
+Theorem C17_files_value_valid :
+  forall fs, fs <> [] -> ss_dom fs = true ->
+    valid_value (join [SP] fs) = true /\ trimmed (join [SP] fs) = true.
+Proof. exact files_value. Qed.
+
+Theorem C17_lines_value_valid :
+  forall l o, lb_dom l = true -> lb_to_str l = Ok (Some o) -> valid_value o = true /\ trimmed o = true.
+Proof. exact lines_value. Qed.
+
+(** a valid deb822 value is never refused by Deb822.__setitem__ *)
+Theorem C17_valid_value_accepted :
+  forall v, valid_value v = true -> validate_input v = Ok tt.
+Proof. exact validate_valid_value. Qed.
+
+(** * Non-vacuity, and the behaviour outside the domains *)
+Local Open Scope string_scope.
+
+Example C17_codec_nonvacuous :
+  let ls := [dec "GPL-2+"; dec ""; dec "  indented, trailing blanks  "; dec "\000009tab"; dec "";
+             dec "\0000dcn\0000efc\0000f6d\0000e9 \0065e5\00672c\008a9e"; dec ".."; dec " . "] in
+  ml_dom ls = true
+  /\ format_multiline_lines ls
+     = dec "GPL-2+\00000a .\00000a   indented, trailing blanks  \00000a \000009tab\00000a .\00000a \0000dcn\0000efc\0000f6d\0000e9 \0065e5\00672c\008a9e\00000a ..\00000a  . "
+  /\ text_dom (dec "\00000afirst line empty\00000a\00000a  x") = true
+  /\ lic_dom (dec "") (dec "\00000aa\00000a\00000ab") = true
+  /\ lic_dom (dec "GPL-2+ or Artistic") (dec "") = true
+  /\ ss_dom [dec "*"; dec "src/*.c"; dec "\0000e9/\0000fc?"] = true
+  /\ lb_dom [dec "J\0000f6rg <j@x.org>"; dec "A  B"] = true
+  (* outside the domains the codecs are lossy, as the property text says *)
+  /\ parse_multiline_as_lines (format_multiline_lines [dec "a"; dec " "]) = Ok [dec "a"; dec ""]
+  /\ parse_multiline_as_lines (format_multiline_lines [dec "a"; dec "."]) = Ok [dec "a"; dec ""]
+  /\ parse_multiline_as_lines (format_multiline_lines [dec "a"; dec "x\00000cy"]) = Err FormatError
+  /\ lb_from_str (Some (dec " a ")) = [dec "a"].
+Proof. vm_compute. repeat split; reflexivity. Qed.
+
+Definition ex_hops : list shop :=
+  [SHSet 1 (SStr (dec "python-debian"));
+   SHSet 2 (SList [dec "J\0000f6rg <j@x.org>"; dec "A B <a@b.c>"]);
+   SHItem (dec "X-Note") (dec "first\00000a second\00000a \000009third");
+   SHSet 6 (SLic (dec "GPL-2+") None);
+   SHSet 1 SNone;
+   SHSet 0 (SStr (dec "https://example.org/format"))].
+Definition ex_paras : list spara :=
+  [PLicense (SLic (dec "MIT") (Some (dec "Permission is hereby granted\00000a\00000a  indented\00000a..")))
+            (SStr (dec "a comment"));
+   PFiles (SList [dec "*"]) (SStr (dec "2014 Foo <foo@example.org>\00000a 2015 Bar\00000a\0000092016 Tab"))
+          (SLic (dec "GPL-2+") (Some (dec ""))) SNone;
+   PLicense (SLic (dec "") (Some (dec "\00000aonly text"))) SNone;
+   PFiles (SList [dec "debian/*"; dec "src/\0000e9?.c"]) (SStr (dec ""))
+          (SLic (dec "MIT") None) (SStr (dec "c\00000a ."))].
+
+Example C17_document_nonvacuous :
+  wf_copyright ex_hops ex_paras = true
+  /\ List.length (expected_order ex_paras) = 4%nat
+  /\ map is_pfiles (expected_order ex_paras) = [true; true; false; false]
+  /\ forallb (fun form =>
+       match run_doc (map hop_of_shop ex_hops) (map pspec_of_spara ex_paras) form true with
+       | RDone t v1 v2 t2 =>
+           str_eqb t t2 && (List.length v1 =? 5)%nat
+           && str_eqb t (dec "Format: https://example.org/format\00000aUpstream-Contact:\00000a J\0000f6rg <j@x.org>\00000a A B <a@b.c>\00000aX-Note: first\00000a second\00000a \000009third\00000aLicense: GPL-2+\00000a\00000aFiles: *\00000aCopyright: 2014 Foo <foo@example.org>\00000a 2015 Bar\00000a\0000092016 Tab\00000aLicense: GPL-2+\00000a\00000aFiles: debian/* src/\0000e9?.c\00000aCopyright:\00000aLicense: MIT\00000aComment: c\00000a .\00000a\00000aLicense: MIT\00000a Permission is hereby granted\00000a .\00000a   indented\00000a ..\00000aComment: a comment\00000a\00000aLicense:\00000a .\00000a only text\00000a")
+       | _ => false
+       end) [0; 2; 3; 4]%N = true
+  (* outside the domain: a Format URL that Header() repairs changes the second dump *)
+  /\ match run_doc [HSet 0 (BStr (dec "http://www.debian.org/doc/packaging-manuals/copyright-format/1.0"))] [] 0 true with
+     | RDone t _ _ t2 => negb (str_eqb t t2)
+     | _ => false
+     end = true.
+Proof. vm_compute. repeat split; reflexivity. Qed.
+
+Print Assumptions C17_multiline_codec_inverse.
+Print Assumptions C17_multiline_codec_edge.
+Print Assumptions C17_multiline_text_inverse.
+Print Assumptions C17_multiline_none.
+Print Assumptions C17_license_inverse.
+Print Assumptions C17_space_separated_inverse.
+Print Assumptions C17_line_based_inverse.
+Print Assumptions C17_copyright_roundtrip.
+Print Assumptions C17_copyright_roundtrip_observed.
+Print Assumptions C17_reader_roundtrip.
+Print Assumptions C17_license_value_valid.
+Print Assumptions C17_files_value_valid.
+Print Assumptions C17_lines_value_valid.
+Print Assumptions C17_valid_value_accepted.
